@@ -98,7 +98,8 @@ def runtimeConfigReaders : List String := ["validate"]
 theorem C16_definitions_never_read_config :
     Generated.configReaders.all (fun n => runtimeConfigReaders.contains n) = true := by decide
 
-/-- **C16_environment_erasable**: changes of the process environment (the global validator switch) anywhere in a
+/-- **C16_environment_erasable**: changes of the process environment (the global validator switch) and read-only
+    uses of existing classes (`Step.use`: fields / asdict / evolve / validate / copy / ...) anywhere in a
     history can be erased together with the definitions: the target is defined exactly as with the switch in its
     default state, and the environment operations themselves leave the world of arguments alone. -/
 theorem C16_environment_erasable (c : Case) (w : World) (steps : List Step) (t : Step)
@@ -112,7 +113,7 @@ theorem C16_environment_erasable (c : Case) (w : World) (steps : List Step) (t :
   exact ⟨hw, by rw [hw]⟩
 
 /-- non-vacuity: switch off, define, switch on, define -/
-example : ∀ s ∈ [Step.validatorsOff, Step.defDeco 0 default, Step.validatorsOn, Step.defDeco 0 default],
+example : ∀ s ∈ [Step.validatorsOff, Step.defDeco 0 default, Step.use 3, Step.validatorsOn, Step.defDeco 0 default],
     s.isDef = true ∨ s.isEnv = true := by decide
 
 /-- **C16_make_class_pure**: `make_class` returns the caller's containers unchanged and its result depends on the
